@@ -379,3 +379,67 @@ def run(ctx):
         elif len(wr) != 1:
             detail = "Database::keyspace takes keyspaces.write() %d times (expected once, before the look-up)" % len(wr)
         ctx.ob("R-C12.7", kf, "lookup-and-create-are-one-critical-section", ok, detail)
+
+    # ---- R-C12.8 a keyspace is identified by its id, not by its name: a (stale) handle of a deleted keyspace must not act on the
+    # keyspace that was re-created under the same name
+    rk = ctx.fn("meta_keyspace::MetaKeyspace::remove_keyspace", "R-C12.8")
+    if rk:
+        og = ctx.og(rk)
+        gets = [b for b, t in rk.calls() if A.cname(t).endswith("::get") and "HashMap" in A.cname(t)]
+        effects = [b for b, t in rk.calls() if (A.cname(t).startswith("lsm_tree::") and A.cname(t).endswith("::finish")) or (A.cname(t).endswith("::remove") and "HashMap" in A.cname(t))]
+        ok = False
+        detail = "remove_keyspace does not compare the registered keyspace's id with the handle's"
+        for b, blk in enumerate(rk.blocks):
+            if blk["t"]["k"] != "switch" or blk["cleanup"]:
+                continue
+            c = A.compare_switch(rk, b, og)
+            if not c or c[0] not in ("Eq", "Ne"):
+                continue
+            sides = (c[1], c[2])
+            reg = any(any(x.k == "field" and x.a[1] == "id" for x in A.walk(s_)) and any(x.k == "call" and "HashMap" in x.a[0] for x in A.walk(s_)) for s_ in sides)
+            par = any(any(x.k == "param" and x.a[0] >= 2 for x in A.walk(s_)) and not any(x.k == "call" and "HashMap" in x.a[0] for x in A.walk(s_)) for s_ in sides)
+            if reg and par:
+                differ = c[3] if c[0] == "Ne" else c[4]
+                ok = bool(effects) and not any(e in A.reach(rk, list(differ)) for e in effects)
+                detail = "the entry registered under the name is removed only if its id is the handle's id" if ok else "on the edge where the ids differ the registered keyspace is still removed"
+        ctx.ob("R-C12.8", rk, "removes-only-the-keyspace-with-the-handles-id", ok,
+               detail if ok else detail + ": delete_keyspace(stale handle of the deleted \"a\") unregisters the NEW \"a\" — its acknowledged writes are gone after a reopen")
+    dk = ctx.fn("db::Database::delete_keyspace", "R-C12.8")
+    if dk:
+        og = ctx.og(dk)
+        ok = False
+        for b in R.call_blocks(dk, ("meta_keyspace::MetaKeyspace::remove_keyspace",)):
+            args = [og.of_operand(a) for a in dk.term(b)["args"]]
+            ok = any(A.access_path(a) is not None and A.access_path(a)[-1] == "id" and A.access_path(a)[0] == "P2" for a in args)
+        ctx.ob("R-C12.8", dk, "passes-the-handles-id", ok, "delete_keyspace hands the handle's id to remove_keyspace" if ok else "delete_keyspace identifies the keyspace to remove by name only")
+    for fid, what in (("<keyspace::Keyspace as std::cmp::PartialEq>::eq", "eq"), ("<keyspace::Keyspace as std::hash::Hash>::hash", "hash")):
+        fn = F.fns.get(fid) or next((f for k_, f in F.fns.items() if k_.startswith(fid)), None)
+        if fn is None:
+            ctx.ob("R-C12.8", fid, "keyspace-identity-impl-present", False, "%s not found" % fid, kind="anchor")
+            continue
+        og = ctx.og(fn)
+        uses_name = any(x.k == "field" and x.a[1] == "name" for b, t in fn.calls() for a in t["args"] for x in A.walk(og.of_operand(a))) or \
+            any(x.k == "field" and x.a[1] == "name" for blk in fn.blocks for st in blk["s"] for x in A.walk(og.of_rvalue(st["rv"])))
+        uses_id = any(x.k == "field" and x.a[1] == "id" for b, t in fn.calls() for a in t["args"] for x in A.walk(og.of_operand(a))) or \
+            any(x.k == "field" and x.a[1] == "id" for blk in fn.blocks for st in blk["s"] for x in A.walk(og.of_rvalue(st["rv"])))
+        ok = uses_id and not uses_name
+        ctx.ob("R-C12.8", fn, "keyspace-%s-by-id" % what, ok,
+               "Keyspace::%s compares the internal id" % what if ok
+               else "Keyspace::%s goes by NAME: in a transaction's write set (HashMap<Keyspace, _>) a stale handle of a deleted keyspace and the handle of its re-created successor collide — a write through one is committed into the other" % what)
+
+    # ---- R-C12.9 "its files disappear once the last handle is dropped": a sealed journal's eviction watermarks hold a clone of
+    # each keyspace handle; for a DELETED keyspace that clone must be let go (the watermark no longer counts anyway),
+    # otherwise the keyspace's folder stays on disk for as long as that journal lives
+    mt9 = ctx.fn("journal::manager::JournalManager::maintenance", "R-C12.9")
+    if mt9:
+        og9 = ctx.og(mt9)
+        ok9 = False
+        for b, t in mt9.calls():
+            if A.cname(t).endswith("::retain") and "Vec" in A.cname(t) and any(x.k == "field" and x.a[1] == "watermarks" for x in A.walk(og9.of_operand(t["args"][0]))):
+                cl = A.closure_of_operand(mt9, t["args"][1])
+                cf = F.fns.get(cl) if cl else None
+                if cf and any(A.cname(t2) == "std::sync::atomic::Atomic::<bool>::load" and any(x.k == "field" and x.a[1] == "is_deleted" for x in A.walk(ctx.og(cf).of_operand(t2["args"][0]))) for _, t2 in cf.calls()):
+                    ok9 = True
+        ctx.ob("R-C12.9", mt9, "watermarks-of-deleted-keyspaces-are-released", ok9,
+               "maintenance drops the watermarks (and with them the handles) of deleted keyspaces" if ok9
+               else "sealed journals keep a handle of a deleted keyspace in their watermarks: after the last user handle is dropped the keyspace's folder stays on disk until that journal is evicted or the database closes")
